@@ -844,3 +844,126 @@ Proof.
       rewrite Hp1, Hc1, bytes_app, bytes_rev, <- Hp0. lia. }
     rewrite Hpc1, Hc1. cbn [code_fns9]. rewrite rev_app_distr, app_assoc. reflexivity.
 Qed.
+
+Lemma fns_ok9_suffix pre : forall suf, fns_ok9 (pre ++ suf) = true -> fns_ok9 suf = true.
+Proof.
+  induction pre as [|[n f] r IH]; intros suf H; [exact H|].
+  cbn [app fns_ok9] in H. apply andb_true_iff in H. apply IH, H.
+Qed.
+
+Lemma sig_suffix pre : forall suf x k, sm_find x (sig_of suf) = Some k ->
+  exists k', sm_find x (sig_of (pre ++ suf)) = Some k'.
+Proof.
+  induction pre as [|[n f] r IH]; intros suf x k H; [eauto|].
+  cbn [app sig_of map fst snd sm_find]. destruct (str_eqb x n); [eauto|]. apply (IH _ _ _ H).
+Qed.
+
+(* ------------------------------------------------------------------ the compiled program: labels *)
+Theorem compile_f9_labels M B :
+  in_f9 M = true -> compile M default_options = COk B ->
+  N.of_nat (length (p_ids B)) < two32 ->
+  CompilerLabels.label_keys_distinct_module M 64 = true ->
+  labels_ok9 (p_labels B) 1 (bases_all9 (p_ids B) M).
+Proof.
+  intros HM HB Hlen Hdist. destruct M as [subs funs imps]. cbn [in_f9] in HM.
+  destruct subs; [|discriminate]. destruct funs as [|[name f] others]; [discriminate|].
+  destruct imps; [|discriminate].
+  apply andb_true_iff in HM. destruct HM as [HM Hfns]. apply andb_true_iff in HM. destruct HM as [HM Hcards].
+  apply andb_true_iff in HM. destruct HM as [HM _]. apply andb_true_iff in HM. destruct HM as [Hname Hargs].
+  apply str_eqb_main in Hname. subst name.
+  assert (Ha : f_args f = []) by (destruct (f_args f); [reflexivity | discriminate]).
+  destruct (compile_ok_inv _ _ _ HB) as (fs & s & Hfs & E & ->).
+  change (o_recursion_limit default_options) with 64 in Hfs.
+  unfold CompilerLabels.label_keys_distinct_module in Hdist. rewrite Hfs in Hdist.
+  destruct (ir_stream9 _ _ _ Hfs) as (std & ->).
+  set (M := Module [] ((s_main, f) :: others) []) in *.
+  set (FT := ftab_of M).
+  cbn [finish p_ids p_labels] in *.
+  set (s0 := init_state (o_debug default_options)) in *.
+  pose proof E as Ecomp.
+  cbn [firs9 app] in E. set (fm := fir9 0 0 s_main f) in *.
+  unfold compile_ir in E.
+  apply bind_ok in E. destruct E as ([] & s1 & E1 & E).
+  apply bind_ok in E. destruct E as ([] & s3 & E23 & E4).
+  cbn [stage_2] in E23. apply bind_ok in E23. destruct E23 as ([] & s2 & E2 & E3).
+  rewrite CompilerLabels.compile_others_app in E3. apply bind_ok in E3. destruct E3 as ([] & su & Eu & Estd).
+  assert (Eafter : after_main std su = ROk tt s).
+  { unfold after_main, bind. rewrite Estd. exact E4. }
+  match type of E1 with stage_1 ?l _ = _ => set (FS := l) in * end.
+  pose proof (frame3_stage_1 FS s0) as F1. rewrite E1 in F1.
+  destruct F1 as (c1 & p1 & i1 & n1).
+  assert (Hctx1 : ctx s1).
+  { destruct (stage_1_ctx _ _ _ E1) as [A B]. split; [rewrite A; reflexivity|]. split; [rewrite B; reflexivity|].
+    rewrite p1, c1. reflexivity. }
+  assert (Hd1 : cs_depth s1 = [0%Z]).
+  { clear - E1. assert (Hg : forall fs sa sb, stage_1 fs sa = ROk tt sb -> cs_depth sb = cs_depth sa).
+    { induction fs as [|x r IH]; intros sa sb H; cbn [stage_1] in H; [injection H as <-; reflexivity|].
+      apply bind_ok in H. destruct H as ([] & sx & Hx & Hr). rewrite (IH _ _ Hr).
+      unfold add_function, bind, get in Hx. destruct (sm_find _ _); [discriminate|]. injection Hx as <-. reflexivity. }
+    rewrite (Hg _ _ _ E1). reflexivity. }
+  assert (Hjb1 : jb FT (cs_jump s1) = true).
+  { exact (stage_1_jb ((s_main, f) :: others) 0%nat 0 std s0 s1 E1). }
+  assert (Hst1 : fst9 FT s1).
+  { split; [exact Hctx1|]. split; [exists []; exact Hd1 | exact Hjb1]. }
+  assert (Hsg : forall nm k, sm_find nm (sig_of others) = Some k -> exists h ar, sm_find nm FT = Some (h, ar)).
+  { intros nm k Hk. unfold FT, ftab_of, M. cbn [m_functions ftab_from sm_find].
+    destruct (str_eqb nm s_main); [eauto | apply (sig_ftab _ _ _ _ Hk)]. }
+  destruct (main9_shape FT (sig_of others) f s1 s2 Hsg Ha Hcards Hst1 ltac:(rewrite p1; reflexivity) E2)
+    as (Hst2 & S12 & N2 & C2).
+  destruct (others9_shape FT others _ _ s2 su Hsg Hfns Hst2 Eu) as (Hstu & S2u & Nu & Cu).
+  assert (Gu : G [] [] su).
+  { assert (S : sp3 [] [] (stage_1 FS ;; (compile_main fm ;; compile_others (firs9 1 (0 + 1) others))) (fun _ => True)).
+    { eapply sp3_bind; [apply sp3_frame, frame3_stage_1 | intros _ _].
+      eapply sp3_bind; [apply sp3_compile_main | intros _ _; apply sp3_compile_others]. }
+    specialize (S s0 (G_init _)). unfold bind in S. rewrite E1, E2, Eu in S. apply S. }
+  assert (Gs : G (cs_code su) (cs_ids su) s).
+  { assert (Gu' : G (cs_code su) (cs_ids su) su).
+    { apply G_here; [apply (g_pc _ _ _ Gu)|]. intros Hl. destruct (g_ids _ _ _ Gu Hl) as [I1 I2 I3 _]. auto. }
+    pose proof (sp3_after_main (cs_code su) (cs_ids su) std su Gu') as S. rewrite Eafter in S. apply S. }
+  destruct (g_ids _ _ _ Gs Hlen) as [Inv Ilt Iinj Iext].
+  assert (Hsub : sub (cs_ids su) (cs_ids s)) by exact Iext.
+  assert (Hsub2 : sub (cs_ids s2) (cs_ids s)) by (eapply sub_trans; [exact (proj1 S2u) | exact Hsub]).
+  set (T := cs_ids s) in *.
+  set (cm := code_main9 T FT (f_cards f)).
+  assert (Hcode2 : cs_code s2 = rev cm).
+  { rewrite (C2 _ Hsub2), c1. cbn [s0 init_state cs_code]. rewrite app_nil_r. reflexivity. }
+  assert (Hpc2 : cs_pc s2 = bytes cm).
+  { destruct Hst2 as ((_ & _ & Hp2) & _). rewrite Hp2, Hcode2, bytes_rev. reflexivity. }
+  assert (Hlab : forall post pre, others = pre ++ post ->
+            labels_ok9 (cs_labels s) (1 + N.of_nat (length pre))
+              (bases9 T FT (bytes cm + bytes (code_fns9 T FT (bytes cm) pre)) post)).
+  { induction post as [|[nm g] post IHp]; intros pre Ho; [exact I|].
+    cbn [bases9 labels_ok9]. split.
+    - eassert (Hsplit : firs9 0 0 ((s_main, f) :: others) ++ std = (fm :: firs9 1 (0 + 1) pre) ++ _ :: _).
+      { rewrite Ho. cbn [firs9]. rewrite firs9_app. cbn [firs9 app]. rewrite <- app_assoc. cbn [app]. reflexivity. }
+      destruct (CompilerLabels.label_points_to_body _ _ s _ _ _ Hsplit ltac:(discriminate) Ecomp Hdist)
+        as (s1' & s2' & body & rest & Hrun & _ & _ & _ & _ & Hl).
+      apply bind_ok in Hrun. destruct Hrun as ([] & sx & Hx & Hrun).
+      change (stage_1 FS s0 = ROk tt sx) in Hx. rewrite E1 in Hx. injection Hx as <-.
+      cbn [stage_2] in Hrun. apply bind_ok in Hrun. destruct Hrun as ([] & sy & Hy & Hrun).
+      rewrite E2 in Hy. injection Hy as <-.
+      cbn [fir9 fi_handle] in Hl. change (0 + 1) with 1 in Hl. rewrite Hl. f_equal.
+      assert (Hsg' : forall x k, sm_find x (sig_of (pre ++ (nm, g) :: post)) = Some k ->
+                                 exists h ar, sm_find x FT = Some (h, ar)) by (rewrite <- Ho; exact Hsg).
+      assert (Hfns' : fns_ok9 (pre ++ (nm, g) :: post) = true) by (rewrite <- Ho; exact Hfns).
+      destruct (others9_shape_gen FT ((nm, g) :: post) pre _ _ s2 s1' Hsg' Hfns' Hst2 Hrun) as (Hst1' & S1' & C1').
+      pose proof Eu as Eu'. rewrite Ho, firs9_app, CompilerLabels.compile_others_app in Eu'.
+      apply bind_ok in Eu'. destruct Eu' as ([] & sz & Ez & Erest).
+      rewrite Hrun in Ez. injection Ez as <-.
+      assert (Hsg'' : forall x k, sm_find x (sig_of (((nm, g) :: post) ++ [])) = Some k ->
+                                  exists h ar, sm_find x FT = Some (h, ar)).
+      { rewrite app_nil_r. intros x k Hx. destruct (sig_suffix pre _ x k Hx) as [k' Hk'].
+        rewrite <- Ho in Hk'. exact (Hsg x k' Hk'). }
+      assert (Hfns'' : fns_ok9 (((nm, g) :: post) ++ []) = true).
+      { rewrite app_nil_r. apply (fns_ok9_suffix pre). rewrite <- Ho. exact Hfns. }
+      destruct (others9_shape_gen FT [] ((nm, g) :: post) _ _ s1' su Hsg'' Hfns'' Hst1' Erest) as (_ & S' & _).
+      assert (HT : sub (cs_ids s1') T) by (eapply sub_trans; [exact (proj1 S') | exact Hsub]).
+      destruct Hst1' as ((_ & _ & Hp1') & _).
+      rewrite Hp1', (C1' T HT), Hpc2, Hcode2, bytes_app, !bytes_rev. lia.
+    - specialize (IHp (pre ++ [(nm, g)])). rewrite <- app_assoc in IHp. specialize (IHp Ho).
+      rewrite app_length, code_fns9_app in IHp. cbn [length code_fns9] in IHp.
+      rewrite app_nil_r, bytes_app, N.add_assoc in IHp.
+      replace (1 + N.of_nat (length pre) + 1) with (1 + N.of_nat (length pre + 1)) by lia. exact IHp. }
+  pose proof (Hlab others [] eq_refl) as H. cbn [length code_fns9 bytes] in H.
+  change (N.of_nat 0) with 0 in H. rewrite !N.add_0_r in H. exact H.
+Qed.
